@@ -76,7 +76,7 @@ def demangle_witnesses(R, kinds):
     compiled to code, not run - by the compiler of the build (g++) and by clang; a failed witness is reported by name."""
     import subprocess, re, os
     src = os.path.join(core.VERIF, 'universe', 'w_demangle.cc')
-    names = re.findall(r'W\( "([^"]+)"', open(src).read())
+    names = re.findall(r'WC?\( "([^"]+)"', open(src).read())
     for cc in ('g++', 'clang++'):
         try:
             r = subprocess.run([cc, '-std=c++17', '-fsyntax-only', '-I', os.path.join(core.REPO, 'include'), src], capture_output=True, text=True, timeout=300)
@@ -86,6 +86,11 @@ def demangle_witnesses(R, kinds):
         other = [l for l in r.stderr.splitlines() if 'error' in l and 'WITNESS' not in l and 'static assertion' not in l and 'static_assert' not in l]
         if r.returncode != 0 and not failed:
             R.broke('%s: the witness file does not type-check: %s' % (cc, (other or r.stderr.splitlines() or ['?'])[0][:200])); continue
+        literal = [n for n in names if not n.startswith('comp-') and n not in ('int', 'user-rule')]
+        if literal and all(n in failed for n in literal) and not any(n.startswith('comp-') for n in failed):
+            # every recorded spelling differs but the spelling-independent witnesses hold: this compiler writes type names differently from the recorded ones
+            R.broke('%s spells type names differently from the spellings recorded in universe/w_demangle.cc (all literal witnesses fail, the compositional ones hold)' % cc)
+            failed -= set(literal)
         for n in names:
             kinds['name'] += 1
             R.ob(ok=n not in failed, key=('name', cc, n))
@@ -151,7 +156,7 @@ def run(tier):
     if nb < 8: R.broke('only %d public try_catch rules found (floor 8)' % nb)
     demangle_witnesses(R, kinds)
     R.cov['obligations_by_kind'] = dict(kinds)
-    for k, fl in (('name', 16), ('must', 8), ('raise-rule', 4), ('try-catch', 16), ('normal-raise', 4), ('nothrow', 10), ('equiv-raise', 20)):
+    for k, fl in (('name', 30), ('must', 8), ('raise-rule', 4), ('try-catch', 16), ('normal-raise', 4), ('nothrow', 10), ('equiv-raise', 20)):
         if kinds.get(k, 0) < fl: R.broke('only %d %s obligations (floor %d)' % (kinds.get(k, 0), k, fl))
     R.assumptions = ['numerical consistency of byte/line/column is C06; copy semantics of foreign exception types are not modelled',
                      'propagation through combinators without handlers relies on C++ semantics plus the RAII behaviour checked by REWIND/HOOKS (destructors interpreted from source)']
